@@ -99,11 +99,15 @@ def run(run):
         for container, scripting in cfgs:
             dd = d if container is None else max(2, d - 1)
             th = theme + "F" if (theme in ("TU", "T8") and container is not None) else theme
-            init = [()]
-            if container is None and not scripting:
-                init += tw.seed_words(th)       # deep states reached by fixed prefixes (counted in the same BFS)
-            res = engine.product_bfs(step, len(tw.THEMES[th]), dd, bisim_depth=max(0, dd - 2), ctx=(th, container, scripting),
-                                     init_words=init)
+            res = engine.product_bfs(step, len(tw.THEMES[th]), dd, bisim_depth=max(0, dd - 2), ctx=(th, container, scripting))
+            if container is None and not scripting and tw.seed_words(th):
+                # deep states reached by fixed prefixes, explored one level less deep
+                res2 = engine.product_bfs(step, len(tw.THEMES[th]), max(2, dd - 1), ctx=(th, container, scripting),
+                                          init_words=tw.seed_words(th))
+                res.states += res2.states
+                res.transitions += res2.transitions
+                res.obs |= res2.obs
+                res.violations += res2.violations
             tot_s += res.states
             tot_t += res.transitions
             bc += res.bisim_checks
